@@ -323,9 +323,9 @@ class Frame(Widget, WidgetContainerMixin, typing.Generic[BodyWidget, HeaderWidge
 
     def _contents_keys(self) -> list[Literal["header", "footer", "body"]]:
         keys = ["body"]
-        if self._header:
+        if self._header is not None:
             keys.append("header")
-        if self._footer:
+        if self._footer is not None:
             keys.append("footer")
         return keys
 
@@ -343,9 +343,9 @@ class Frame(Widget, WidgetContainerMixin, typing.Generic[BodyWidget, HeaderWidge
     ) -> tuple[BodyWidget | HeaderWidget | FooterWidget, None]:
         if key == "body":
             return (self._body, None)
-        if key == "header" and self._header:
+        if key == "header" and self._header is not None:
             return (self._header, None)
-        if key == "footer" and self._footer:
+        if key == "footer" and self._footer is not None:
             return (self._footer, None)
         raise KeyError(f"Frame.contents has no key: {key!r}")
 
@@ -588,18 +588,18 @@ class Frame(Widget, WidgetContainerMixin, typing.Generic[BodyWidget, HeaderWidge
         """
         Return an iterator over the positions in this Frame top to bottom.
         """
-        if self._header:
+        if self._header is not None:
             yield "header"
         yield "body"
-        if self._footer:
+        if self._footer is not None:
             yield "footer"
 
     def __reversed__(self) -> Iterator[Literal["footer", "body", "header"]]:
         """
         Return an iterator over the positions in this Frame bottom to top.
         """
-        if self._footer:
+        if self._footer is not None:
             yield "footer"
         yield "body"
-        if self._header:
+        if self._header is not None:
             yield "header"
